@@ -147,7 +147,11 @@ def compiled(p):
 
 # ------------------------------------------------------------------ implementation run
 class BodyErr(Exception):
-    pass
+    """The body's own exception. Exceptions built WITHOUT arguments (`raise Boom()`) are as legal as ones with: odd
+    codes carry no args, even codes carry one."""
+    def __init__(self, code):
+        Exception.__init__(self, *(() if code % 2 else (code,)))
+        self.code = code
 
 def answer_errors(a, i):
     """entry of an answer script -> list of (severity, message); messages carry the request index"""
@@ -202,7 +206,7 @@ def impl_run(case):
         compiled(p)(m, L, BodyErr)
         res = ['normal']; exc = None
     except BodyErr as e:
-        res = ['body', e.args[0]]; exc = e
+        res = ['body', e.code]; exc = e
     except RPCError as e:
         res = ['rpc', 1 if e.errlist is None else 2, e.severity or '', e.message or '', 1 if e.errlist is None else len(e.errlist)]; exc = e
     except BaseException as e:
